@@ -193,11 +193,19 @@ type vf29Server struct {
 	conns    []net.Conn
 	wg       sync.WaitGroup
 	nameCtr  int
+	stall    map[string]bool // server name -> fingerprints that are not accepted are black-holed (no answer) instead of refused
 }
+
+// vf29StallFor is how long a black-holed ClientHello stays unanswered; the Roller of the stall test gives each attempt
+// vf29StallTimeout.
+const (
+	vf29StallFor     = 6 * time.Second
+	vf29StallTimeout = 1500 * time.Millisecond
+)
 
 func vf29NewServer(t *testing.T) *vf29Server {
 	pool := vf29GetPool()
-	s := &vf29Server{pool: pool, accept: map[string]map[int]bool{}}
+	s := &vf29Server{pool: pool, accept: map[string]map[int]bool{}, stall: map[string]bool{}}
 	leaf := vfLeaf(vfLeafSpec{KeyType: "ecdsa", Names: []string{"*" + vf29Domain},
 		NotBefore: vfPKIEpoch.Add(-9 * 365 * 24 * time.Hour), NotAfter: vfPKIEpoch.Add(9 * 365 * 24 * time.Hour)})
 	base := &Config{Certificates: []Certificate{*leaf}, MinVersion: VersionTLS10, MaxVersion: VersionTLS13, CipherSuites: vfAllServerSuites()}
@@ -212,6 +220,12 @@ func vf29NewServer(t *testing.T) *vf29Server {
 		s.attempts = append(s.attempts, vf29Attempt{Seq: len(s.attempts), Idx: idx, SNI: chi.ServerName, Accepted: acc})
 		s.mu.Unlock()
 		if !acc {
+			s.mu.Lock()
+			hole := s.stall[chi.ServerName]
+			s.mu.Unlock()
+			if hole {
+				time.Sleep(vf29StallFor)
+			}
 			return nil, errors.New("vf29: fingerprint not accepted")
 		}
 		return nil, nil
@@ -771,4 +785,63 @@ func TestVerifC29Concurrent(t *testing.T) {
 		st.NonTrivial(fmt.Sprintf("conc|%v|%d|%d|%d", cfg, working, n, nrej))
 		st.Sample(map[string]any{"ids": pool.names(cfg), "callers": n, "with_rejections": nrej, "primed": working >= 0})
 	})
+}
+
+// A peer that blocks a fingerprint by never answering (black-holing): TlsHandshakeTimeout bounds EACH attempt, so the
+// IDs tried after a stalled one still get their chance, and Dial returns the first connection whose handshake succeeds.
+// Timing: a stalled attempt costs vf29StallTimeout; if the accepted fingerprint's ClientHello reached the server but the
+// Dial still failed, the machine was too slow for the per-attempt timeout (no verdict).
+func TestVerifC29StalledFingerprint(t *testing.T) {
+	if sh := os.Getenv("VERIF_SHARD"); sh != "" && sh != "0" {
+		t.Skip("timing-based directed test: runs in shard 0 only")
+	}
+	vf29TrustSetup()
+	st := vfNewStats(t, "C29")
+	s := vf29NewServer(t)
+	vf29Sanity(s)
+	pool := s.pool
+	rounds := 3
+	if vfThorough() {
+		rounds = 8
+	}
+	for round := 0; round < rounds; round++ {
+		// three distinct fixed fingerprints from the pool
+		cfg := []int{(round * 3) % len(pool.ids), (round*3 + 1) % len(pool.ids), (round*3 + 2) % len(pool.ids)}
+		r := vf29NewRoller(vf29IDs(pool, cfg))
+		r.TlsHandshakeTimeout = vf29StallTimeout
+		st.Eval()
+		// 1. only the first ID is accepted: it becomes the working one
+		n1 := s.newName(map[int]bool{cfg[0]: true})
+		res := vf29Dial(r, s.addr, n1)
+		if res.err != nil || res.conn == nil {
+			st.Class("stall:priming-failed")
+			continue
+		}
+		res.conn.Close()
+		// 2. now that ID (and one more) is black-holed, the third is accepted
+		n2 := s.newName(map[int]bool{cfg[2]: true})
+		s.mu.Lock()
+		s.stall[n2] = true
+		s.mu.Unlock()
+		res = vf29Dial(r, s.addr, n2)
+		atts := s.attemptsFor(n2)
+		reached := false
+		for _, a := range atts {
+			if a.Idx == cfg[2] {
+				reached = true
+			}
+		}
+		what := fmt.Sprintf("IDs %s, working %s black-holed together with %s, %s accepted; per-attempt timeout %v", pool.names(cfg), pool.ids[cfg[0]].Name, pool.ids[cfg[1]].Name, pool.ids[cfg[2]].Name, vf29StallTimeout)
+		switch {
+		case res.err == nil && res.conn != nil:
+			res.conn.Close()
+			st.Class("stall:reached-the-accepted-fingerprint")
+			st.NonTrivial(fmt.Sprintf("stall|%v", cfg))
+		case reached:
+			st.Class("stall:accepted-hello-arrived-but-dial-failed(too slow, no verdict)")
+		default:
+			st.Violation(t, "%s: Dial failed (%v) and the accepted fingerprint's ClientHello never reached the server; attempts seen: %d", what, res.err, len(atts))
+		}
+		st.Sample(map[string]any{"ids": pool.names(cfg), "stalled_dial_error": fmt.Sprint(res.err), "attempts": len(atts)})
+	}
 }
